@@ -83,9 +83,10 @@ Definition heap_init (c : hcfg) (s : hstate) : hres hstate :=
   let region_start := h_base c in
   let heap_start := align_forward region_start ALLOC_ALIGN in
   let region_offset := w64 (heap_start - region_start) in
-  if h_size c <? w64 (region_offset + NODE) then HPanic
+  if h_size c <? w64 (region_offset + w64 (2 * NODE)) then HPanic
   else
-    let heap_size := w64 (w64 (h_size c - region_offset) - NODE) in
+    (* repair 23ac203: room for two nodes; the size is rounded down so that the end node is aligned *)
+    let heap_size := align_down (w64 (w64 (h_size c - region_offset) - NODE)) ALLOC_ALIGN in
     let m := h_mem s in
     let m := mset m heap_start (w64 (heap_size - NODE)) in
     let m := mset m (heap_start + 8) 0 in
@@ -283,7 +284,7 @@ Definition hp_dealloc (s : hstate) (p : Z) : hres hstate :=
 
 Definition heap_start (c : hcfg) : Z := align_forward (h_base c) ALLOC_ALIGN.
 Definition heap_end (c : hcfg) : Z :=
-  heap_start c + (h_size c - (heap_start c - h_base c) - NODE).
+  heap_start c + align_down (h_size c - (heap_start c - h_base c) - NODE) ALLOC_ALIGN.
 
 (* HeapAllocatorT:deallocall (repair 9ef0717): when initialised, walk the chunks from heap_start and
    clear the next/prev words (the used marks) of every chunk and of the end node *)
